@@ -30,7 +30,7 @@ func rulesSamCodec(c *Ctx, r *Report) {
 	}
 	r.analysed(where)
 	n := ruleFmtConst(c, r, w)
-	r.floor("FMT-CONST", n, 3, "Fprintf calls in SAM.Write")
+	r.floor("FMT-CONST", n, 1, "Fprintf calls in SAM.Write")
 	recv := w.Signature.Recv().Type().(*types.Pointer).Elem().Underlying().(*types.Struct)
 	var decl []string
 	for i := 0; i < recv.NumFields(); i++ {
@@ -106,8 +106,8 @@ func rulesSamCodec(c *Ctx, r *Report) {
 	if okTags && t2t != nil {
 		for _, fc := range calls[1 : len(calls)-1] {
 			if len(fc.args) == 1 {
-				e := s.expr(fc.args[0])
-				if e.Op == "load" && e.Args[0].Op == "index" && strings.HasPrefix(e.Args[0].Args[0].String(), "call:formats/sam.tagsToText(load(P0.f11))") {
+				e := fc.sy.expr(fc.args[0])
+				if e.Op == "load" && e.Args[0].Op == "index" && strings.HasPrefix(e.Args[0].Args[0].String(), "call:"+fname(t2t)+"(load(P0.f11))") {
 					okTagArg = true
 				}
 			}
